@@ -205,6 +205,24 @@ def step (s : St) (t : List String) : St × List String :=
   | ["destroy", a] => match s.get? a with
     | some _ => (s.del a, [])
     | none => bad
+  | ["cstr_str", x, h] => match parseHex? h with
+    | some bs => (s.set x (newString bs), [])
+    | none => bad
+  | ["reinit"] => if s.slots.isEmpty && s.bufs.isEmpty then (s, []) else bad
+  | ["iter", a, st, fl] =>
+    let opt (t : String) : Option (Option Nat) := if t == "-" then some none else t.toNat?.map some
+    match rget s a, opt st, opt fl with
+    | some av, some stop, some fail =>
+      let showR (items : List String) (ok : Bool) : List String :=
+        [s!"P iter {if ok then "OK" else "ERR NONE"} n={items.length} {",".intercalate items}"]
+      match av with
+      | .arr _ => match iterateArray av stop fail with
+        | .ok (vs, ok) => (s, showR (vs.map dump) ok)
+        | .error e => (s, [s!"P iter ERR {errName e} n=0 "])
+      | _ => match iterateObject av stop fail with
+        | .ok (ms, ok) => (s, showR (ms.map fun m => hexB m.1 ++ ":" ++ dump m.2) ok)
+        | .error e => (s, [s!"P iter ERR {errName e} n=0 "])
+    | _, _, _ => bad
   | ["buf", b, _cap, h] => match parseHex? h with
     | some pre => if b.contains '/' then bad else
       ({ s with bufs := (b, pre, []) :: s.bufs.filter (·.1 != b) }, [])
